@@ -75,8 +75,55 @@ def _solve(args):
     t = time.time(); r = str(s.check()); return name, r, round(time.time() - t, 3)
 
 
+def _sexprs(text):
+    """minimal SMT-LIB reader: nested lists of atoms (quoted symbols and comments handled)"""
+    toks = []; i = 0; n = len(text)
+    while i < n:
+        ch = text[i]
+        if ch.isspace(): i += 1
+        elif ch == ";":
+            while i < n and text[i] != "\n": i += 1
+        elif ch in "()": toks.append(ch); i += 1
+        elif ch == "|":
+            j = text.index("|", i + 1); toks.append(text[i:j + 1]); i = j + 1
+        elif ch == '"':
+            j = text.index('"', i + 1); toks.append(text[i:j + 1]); i = j + 1
+        else:
+            j = i
+            while j < n and not text[j].isspace() and text[j] not in "()": j += 1
+            toks.append(text[i:j]); i = j
+    out = []; stack = [out]
+    for t in toks:
+        if t == "(": new = []; stack[-1].append(new); stack.append(new)
+        elif t == ")": stack.pop()
+        else: stack[-1].append(t)
+    return out
+
+
+def _nest2d(x):
+    """z3 prints two-index arrays as (Array Int Int T) / (select a i j) / (store a i j v), which is not SMT-LIB: rewrite to nested arrays for cvc5"""
+    if not isinstance(x, list): return x
+    x = [_nest2d(y) for y in x]
+    if len(x) == 4 and x[0] == "Array": return ["Array", x[1], ["Array", x[2], x[3]]]
+    if len(x) == 4 and x[0] == "select": return ["select", ["select", x[1], x[2]], x[3]]
+    if len(x) == 5 and x[0] == "store": return ["store", x[1], x[2], ["store", ["select", x[1], x[2]], x[3], x[4]]]
+    if len(x) == 2 and isinstance(x[0], list) and len(x[0]) == 3 and x[0][0] == "as" and x[0][1] == "const" and isinstance(x[0][2], list) and x[0][2][0] == "Array" \
+            and isinstance(x[0][2][2], list) and x[0][2][2][0] == "Array" and x[0][2].__len__() == 3 and getattr(_nest2d, "_depth", 0) == 0:
+        return x
+    return x
+
+
+def _dump(x): return x if not isinstance(x, list) else "(" + " ".join(_dump(y) for y in x) + ")"
+
+
+def to_cvc5(text):
+    try: return "\n".join(_dump(_nest2d(e)) for e in _sexprs(text))
+    except Exception: return text
+
+
 def _solve_cvc5(args):
     name, text, timeout = args
+    text = to_cvc5(text)
     t = time.time()
     with tempfile.NamedTemporaryFile("w", suffix=".smt2", delete=False, dir=os.environ.get("PYVC_TMP") or None) as f:
         f.write("(set-logic ALL)\n" + text + "\n(check-sat)\n" if "(check-sat)" not in text else "(set-logic ALL)\n" + text); fn = f.name
